@@ -63,7 +63,8 @@ def vidx_fn(it: Item, fname="vidx", tyname=None) -> str:
 
 
 def construct(it: Item, v: Variant, exprs, tyname=None) -> str:
-    p = "%s::%s" % (turbofish(it, tyname), v.ident)
+    # with lifetime parameters rustc rejects generic arguments on a struct-variant path: rely on inference
+    p = "%s::%s" % ((tyname or it.ident) if it.lifetimes else turbofish(it, tyname), v.ident)
     if v.kind == "unit":
         return p
     if v.kind == "tuple":
